@@ -8,7 +8,7 @@ import glob, json, os, posixpath, stat
 from harness import common
 from harness.common import coq_list, coq_bytes
 
-REQ = ["Verif.lib.UploadShape", "Verif.gen.UploadGen", "Verif.lib.Paths", "Verif.lib.Upload"]
+REQ = ["Verif.lib.UploadShape", "Verif.gen.UploadGen", "Verif.lib.Paths", "Verif.lib.Upload", "Verif.lib.UploadHist"]
 
 
 def tail(s, n=2500):
@@ -26,8 +26,19 @@ def run(ctx):
                        "generated name", "rename(2) is atomic; no power-loss model (the code never fsyncs)",
                        "a crash is modelled as 'no further os-level operation is performed' (exception injected "
                        "from wrapped open/write/close/rename/chmod/unlink)",
-                       "hard links / symlinks planted concurrently by another local process are not modelled "
-                       "(pre-existing symlinks are)",
+                       "symlinks planted by a local actor BETWEEN two service calls are modelled (histories: C19_upload_history, "
+                       "C19_registry_history); a link planted WHILE a call runs is followed (C19_concurrent_symlink_refuted, replayed "
+                       "on the code as a note): outside the property, which quantifies over what the remote peer supplies; "
+                       "hard links to a temporary are excluded by the invariant (a local actor's doing as well)",
+                       "ONE upload at a time per final name: the theorems (C19_atomic_publish .. C19_upload_history_sequential) are about "
+                       "sequential calls; two overlapping uploads of the same name share <name>.partial and are only replayed on the "
+                       "code (oracle/overlapping-uploads-same-name-tear-file)",
+                       "failing system calls (errno instead of death) are modelled for the registry only; in remote_putfile a raising "
+                       "f.close() (ENOSPC at flush) in _done/_err skips the unlink and leaves <name>.partial: not modelled, outside the "
+                       "property's quantifier (source error / disconnect / crash)",
+                       "a restart = the process is gone (handle and unflushed data lost), the next call starts on the directory as it "
+                       "is; the CONTENT of a temporary left by a kill is not compared (only that it is a file), it depends on what the "
+                       "dying process had flushed",
                        "one registry writer at a time (overlapping save_service_data calls share services.json.tmp and are "
                        "outside the property); an injected OS fault is persistent for its kind of operation or transient"]
     ok, log = ctx.coq_build(["props/C19.vo"])
@@ -38,13 +49,18 @@ def run(ctx):
         names = gen_names(ctx)
         model_ok = ok
         if not ok:
-            model_ok, _ = ctx.coq_build(["lib/Upload.vo"])
+            model_ok, _ = ctx.coq_build(["lib/UploadHist.vo"])
         jobs = []
         paths_check(ctx, impl, names, jobs)
         upload_check(ctx, impl, names, jobs)
         registry_check(ctx, impl, jobs)
         gatherer_check(ctx, impl, names, jobs)
         publisher_check(ctx, impl, names, jobs)
+        listing_check(ctx, impl, jobs)
+        symlink_check(ctx, impl, jobs)
+        overlap_check(ctx, impl)
+        history_check(ctx, impl, jobs)
+        toctou_note(ctx, impl)
         if model_ok:
             run_jobs(ctx, jobs)
     impl.wipe()
@@ -120,7 +136,9 @@ HOSTILE = ["", ".", "..", "...", "....", "a/b", "/etc/passwd", "../sentinel/vict
            "x.partial.partial", "lnk", "dlnk", "dlnk/x", "dlnk/..", "lnk/", "~", "~root", "$HOME", "a\\b", "..\\x",
            "C:x", "a\nb", "-rf", "*", "latest", "incident", "incident/..", "incident/../", "incident/../.",
            "incident/../incident-1", "incident-1", "incident-1/", "incidentx/../../sentinel/victim", "incident/../..",
-           "incident\x00", "incident" + "a" * 250, "services.json", "services.json.tmp"]
+           "incident\x00", "incident" + "a" * 250, "services.json", "services.json.tmp",
+           # names that are not literally "", "." or ".." but that normpath collapses to the directory itself (C19-r5s1)
+           "x/..", "./.", ".//", "nosuchdir/..", "x/../.", "./x/..", "x/./..", "x//.."]
 
 
 def gen_names(ctx):
@@ -355,6 +373,11 @@ def one_upload(ctx, impl, name, blocks, ending, variant, sig=None, src=None, col
                          "oracle/upload-escapes-directory"),
                  "upload of name %r (initial state %s) changed something outside the target directory: %s; "
                  "operations %r" % (name, variant, tree_diff(outside0, outside1), rec.ops), replay=what)
+    stray = sorted(set(p for o in rec.ops for p in op_paths(o) if not direct_child(p)))
+    if stray:
+        ctx.fail(sig or "oracle/upload-operates-outside-directory",
+                 "upload of name %r (initial state %s, -> %s) performed file operations on %r, which is not an entry of the target "
+                 "directory itself; operations %r" % (name, variant, out, stray, rec.ops), replay=what)
     final = os.path.join(target, comp)
     complete = b"".join(blocks)
     if out == "ok":
@@ -384,6 +407,20 @@ def one_upload(ctx, impl, name, blocks, ending, variant, sig=None, src=None, col
                             target=target, ops=canon_ops(rec.ops, arena), final_view=view(final),
                             tmp_view=view(final + ".partial"), comp=comp))
     return out
+
+
+def op_paths(o):
+    """arena-relative paths an recorded operation names"""
+    if o[0] == "rename":
+        return [o[1], o[2]]
+    if o[0] == "FAIL":
+        return op_paths(o[2:])
+    return [o[1]]
+
+
+def direct_child(rel, inside="target"):
+    parts = rel.split("/")
+    return len(parts) == 2 and parts[0] == inside and parts[1] not in ("", ".", "..")
 
 
 def crash_sweep(ctx, impl, c):
@@ -488,7 +525,7 @@ def enc_ops(ops):
 UPLOAD_OBS = """Definition obs (c : str * str * list (list N) * outcome * (list (str * ent) * list (list N)) * bool) : list (list N) :=
   let '(base, name, blocks, oc, (ents, cont), with_crash) := c in
   let s0 := mk_st ents cont in
-  match guarded putfile_guard cwd base name with
+  match putfile_final cwd base name with
   | None => [[0%N]]
   | Some final =>
     let ops := upload_ops final blocks oc in
@@ -607,6 +644,18 @@ def reg_two_writers(ctx, impl, old, new, new_b, i, sig=None):
                      dict(old=old, new=new, second=new_b, second_runs_before_op=i, ops=r.ops))
 
 
+def reg_unserialisable(ctx, impl, old, sig=None):
+    """save_service_data is handed a registry that json cannot encode: the dump stops part-way with TypeError"""
+    arena, target, reg = reg_setup(impl, old)
+    oldv, old_loaded, outside0 = view(reg), impl.load_registry(target), impl.outside_snapshot(arena)
+    bad = {"version": 1, "services": {"swiss9": {"relative_basedir": "services/9", "type": "upload-file", "args": ["/srv/in"],
+                                                 "comment": b"bytes are not JSON"}}}
+    out = impl.save_registry(target, bad)
+    return reg_judge(ctx, impl, sig or "oracle/registry-lost-after-failed-dump",
+                     "save_service_data with a comment json cannot encode (call -> %s)" % out,
+                     target, reg, oldv, old_loaded, [], arena, outside0, dict(old=old, new="<comment is a bytes object>", outcome=out))
+
+
 def reg_ops(impl, old, new):
     arena, target, reg = reg_setup(impl, old)
     r = impl.Recorder(arena)
@@ -686,6 +735,9 @@ def registry_check(ctx, impl, jobs):
                         ctx.hist("registry_fault", "%s-%s" % (kind, ename))
                         if persistent and ename == "EIO":
                             fviews.append(v)
+            # (b2) the new text cannot be produced completely (json.dump raises TypeError in the middle of the document)
+            reg_unserialisable(ctx, impl, old)
+            ctx.case(["registry-unserialisable", old], nontrivial=True)
             # (c) a second writer
             idx_rename = [o[0] for o in rec.ops].index("rename")
             points = range(nops + 1) if ALL_INTERLEAVINGS else [0, idx_rename, nops]
@@ -760,7 +812,8 @@ def one_gather(ctx, impl, name, sig=None, collect=None):
         if "/" in k or inside1[k][0] != "f":
             ctx.fail(sig or "oracle/gatherer-not-direct-child", "incident name %r created %r" % (name, k), replay=what)
     if collect is not None:
-        collect.append(dict(name=name, out=out, created=[os.path.join(target, k) for k in created if k != "latest"], target=target))
+        collect.append(dict(name=name, out=out, created=[os.path.join(target, k) for k in created if k != "latest"], target=target,
+                            latest="latest" in created))
     return out
 
 
@@ -773,15 +826,16 @@ def gatherer_check(ctx, impl, names, jobs):
     cs_ = [c for c in cases if not os_refuses(c["name"])]
     exp = []
     for c in cs_:
-        if c["out"] == "ok" and len(c["created"]) == 1:
-            exp.append([[1] + list(enc(c["created"][0]))])
+        if c["out"] == "ok" and len(c["created"]) == 1 and c["latest"]:
+            exp.append([[1] + list(enc(c["created"][0])), [1] + list(enc(os.path.join(c["target"], "latest")))])
         elif c["out"].startswith("raise:") and not c["created"]:
             exp.append([[0]])
         else:
             exp.append([[98], list(enc(repr((c["out"], c["created"]))))])
     pre = "Definition cwd : str := %s.\nDefinition base : str := %s.\n" % (cb(os.getcwd()), cb(cases[0]["target"]))
     jobs.append(make_job("C19_gatherer_0", "correspondence/gatherer", pre, "str", [cb(c["name"]) for c in cs_],
-                         "Definition obs (n : str) := [code_opt (gatherer_path cwd base n)].\n", exp,
+                         "Definition obs (n : str) := match gatherer_writes cwd base n with None => [[0%N]] "
+                         "| Some l => map (fun p => 1%N :: p) l end.\n", exp,
                          lambda i: "incident name %r -> %s, created %r" % (cs_[i]["name"], cs_[i]["out"], cs_[i]["created"])))
 
 
@@ -850,3 +904,438 @@ def publisher_check(ctx, impl, names, jobs):
     jobs.append(make_job("C19_publisher_0", "correspondence/publisher", pre, "nat * str",
                          ["(%d%%nat, %s)" % (i, cb(c["name"])) for i, c in enumerate(cases)], obs, exp,
                          lambda i: "get_incident(%r) -> %s, opened %r" % (cases[i]["name"], cases[i]["out"], cases[i]["opened"])))
+
+
+# ---------------------------------------------------------------------------
+# 6. list_incident_names: the read path that comes from a directory listing
+
+LISTING = ["incident-1.flog", "incident-2.flog.bz2", "incident-3.tmp", "incident-4.flog.tmp", "incidentx", "x", "incident",
+           "incident.bz2.flog", "incident-5.flog.bz2.bz2", "incident-6.bz2", ".flog", "latest", "incident-\u00e9.flog",
+           "incident-7.flog.flog", "incident.tmp.flog", "incident-8", "xincident-9.flog", "incident-10.flog.bz2.tmp"]
+
+
+def listing_check(ctx, impl, jobs):
+    arena, target, sent = impl.fresh("lst")
+    for e in LISTING:
+        with open(os.path.join(target, e), "wb") as f:
+            f.write(b"x")
+    impl.furnish(target)
+    pub = impl.make_publisher(target)
+    sinces = ["", "incident", "incident-", "incident-1", "incident-2", "incident-3", "incident-9", "incident-\u00e9", "j", "a", "incident-10",
+              "incident-sub", "incident.", "incident-7.flog", "\U0001f600", "incident-5.flog.bz2"]
+    for _ in range(ctx.n(10, 200)):
+        sinces.append("".join(ctx.rng.choice(["incident", "-", ".", "1", "5", "9", "a", "z", "\u00e9", "flog", "sub"]) for _ in range(ctx.rng.randint(1, 4))))
+    sinces = list(dict.fromkeys(sinces))
+    listing = os.listdir(target)
+    exp = []
+    for since in sinces:
+        out, res = impl.list_incident_names(pub, since)
+        ctx.case(["listing", since], nontrivial=bool(since))
+        ctx.hist("listing_reported", len(res))
+        for n, full in res:
+            if os.path.dirname(full) != target or os.path.basename(full) not in listing or os.path.basename(full) in ("", ".", ".."):
+                ctx.fail("oracle/listing-outside-directory", "list_incident_names(since=%r) reports %r for %r, which is not an entry of "
+                         "the log directory %r" % (since, full, n, target), replay=dict(since=since, reported=res))
+            if not n > since:
+                ctx.fail("oracle/listing-ignores-since", "list_incident_names(since=%r) reports %r" % (since, n), replay=dict(since=since, reported=res))
+        exp.append([[1 if out == "ok" else 0]] + [x for n, full in res for x in (list(enc(n)), list(enc(full)))])
+    pre = "Definition base : str := %s.\nDefinition listing : list str := %s.\n" % (cb(target), coq_list([cb(e) for e in listing]))
+    jobs.append(make_job("C19_listing_0", "correspondence/listing", pre, "str", [cb(x) for x in sinces],
+                         "Definition obs (since : str) := [1%N] :: flat_map (fun np => [fst np; snd np]) (list_incidents base listing since).\n",
+                         exp, lambda i: "list_incident_names(since=%r) over %r" % (sinces[i], listing)))
+
+
+# ---------------------------------------------------------------------------
+# 7. histories: kill / interruption, restart on the leftover directory, links planted between the calls
+
+def kind(v):
+    return v[:1]
+
+
+def run_uhistory(ctx, impl, name, variant, events, collect, sig=None):
+    """events: ('upload', blocks, ending, crash_before_op | None) | ('plant', 'tmp' | 'final' | 'other', linktext)"""
+    arena, target, sent = impl.fresh("hist")
+    comp = posixpath.normpath(name)
+    ents = prepopulate(target, comp, variant)
+    final = os.path.join(target, comp)
+    tmp = final + ".partial"
+    planted = os.path.join(target, "planted-here")
+    where = dict(tmp=tmp, final=final, other=planted)
+    outside0 = impl.outside_snapshot(arena)
+    skip = {comp, comp + ".partial", "planted-here"}
+    rest0 = {k: v for k, v in impl.snap(target).items() if k not in skip}
+    allowed = [view(final)]
+    mevents, exp, trail = [], [], []
+    out = None
+    for ev in events:
+        if ev[0] == "plant":
+            p = where[ev[1]]
+            if os.path.lexists(p):
+                os.unlink(p)
+            os.symlink(ev[2], p)
+            mevents.append("UPlant %s %s" % (cb(p), cb(ev[2])))
+            if ev[1] == "final":
+                allowed.append([1] + list(enc(ev[2])))
+            trail.append(["plant", ev[1], ev[2]])
+        else:
+            _, bl, ending, crash = ev
+            good = bl if ending == "done" else bl[:ending[1]]
+            script = list(bl) if ending == "done" else list(good) + [impl.source_error(ending[2])]
+            was_link = os.path.islink(tmp)
+            fu = impl.make_uploader(target, 0o640)          # a new process: a new service object
+            rec = impl.Recorder(arena, crash_at=crash)
+            out = impl.putfile(fu, name, script, rec)
+            rec.cleanup()
+            k_model = 10 ** 4 if out != "crash" else crash + (0 if was_link else 1)
+            oc = "Done" if ending == "done" else ("SrcError" if ending[0] == "error" else "BadBlock")
+            mevents.append("UUpload %s %s %s %d%%nat" % (cb(final), coq_list([cb(b) for b in good]), oc, k_model))
+            if ending == "done":
+                allowed.append([2] + list(b"".join(bl)))
+            trail.append(["upload", [b.decode("latin1") for b in bl], ending, crash, out])
+            ctx.hist("history_event", "%s/%s" % (oc, "killed" if out == "crash" else "ran"))
+        what = dict(name=name, variant=variant, events=trail)
+        v = view(final)
+        outside_changed = impl.outside_snapshot(arena) != outside0
+        if v not in allowed:
+            ctx.fail(sig or "oracle/history-partial-under-final-name", "after the events %r on initial state %s the final name %r shows %r, "
+                     "which is neither its initial entry nor a planted link nor the complete content of one of the uploads"
+                     % (trail, variant, comp, bytes(v[1:]) if v[0] == 2 else v), replay=what)
+        if outside_changed:
+            ctx.fail(sig or "oracle/history-escapes-directory", "after the events %r on initial state %s something outside the target "
+                     "directory changed: %s" % (trail, variant, tree_diff(outside0, impl.outside_snapshot(arena))), replay=what)
+        rest = {k: v2 for k, v2 in impl.snap(target).items() if k not in skip}
+        if rest != rest0:
+            ctx.fail(sig or "oracle/history-changes-other-entries", "after the events %r on initial state %s other entries of the target "
+                     "directory changed: before %r after %r" % (trail, variant, rest0, rest), replay=what)
+        exp += [[1 if outside_changed else 0], v, view(planted), kind(view(tmp))]
+    last = events[-1]
+    if last[0] == "upload" and last[2] == "done" and last[3] is None:
+        if out != "ok" or view(final) != [2] + list(b"".join(last[1])) or os.path.lexists(tmp):
+            ctx.fail(sig or "oracle/history-no-recovery", "after the events %r on initial state %s the last, uninterrupted upload ended "
+                     "with %s; final name shows %r, temporary present: %s" % (trail, variant, out, view(final), os.path.lexists(tmp)),
+                     replay=dict(name=name, variant=variant, events=trail))
+    if collect is not None:
+        es, cs = coq_ents(ents)
+        collect.append(dict(term="(%s, %s, %s, (%s, %s))" % (coq_list(mevents), coq_list([cb(final), cb(planted)]), coq_list([cb(tmp)]), es, cs),
+                            exp=exp, desc=dict(name=name, variant=variant, events=trail)))
+
+
+def reg_chunks(impl, cache, data):
+    key = json.dumps(data, sort_keys=True)
+    if key not in cache:
+        arena, target, sent = impl.fresh("reg0")
+        r = impl.Recorder(arena)
+        impl.save_registry(target, data, r)
+        r.cleanup()
+        cache[key] = list(r.written)
+    return cache[key]
+
+
+def run_rhistory(ctx, impl, old, events, cache, collect, sig=None):
+    """events: ('save', data, 'complete' | 'kill' | 'fault', k) | ('plant', 'final' | 'other', linktext)"""
+    import errno
+    arena, target, reg = reg_setup(impl, old)
+    tmp = reg + ".tmp"
+    planted = os.path.join(target, "planted-here")
+    outside0 = impl.outside_snapshot(arena)
+    oldv = view(reg)
+    versions, links = [], []
+    mevents, exp, trail = [], [], []
+    for ev in events:
+        if ev[0] == "plant":
+            p = reg if ev[1] == "final" else planted
+            if os.path.lexists(p):
+                os.unlink(p)
+            os.symlink(ev[2], p)
+            mevents.append("RPlant %s %s" % (cb(p), cb(ev[2])))
+            if ev[1] == "final":
+                links.append([1] + list(enc(ev[2])))
+            trail.append(list(ev))
+        else:
+            _, data, mode, k = ev
+            chunks = reg_chunks(impl, cache, data)
+            r = impl.Recorder(arena, crash_at=k) if mode == "kill" else \
+                (impl.Recorder(arena, fail_at=k, fail_errno=errno.EIO, persistent=True) if mode == "fault" else impl.Recorder(arena))
+            out = impl.save_registry(target, data, r)
+            r.cleanup()
+            versions.append(data)
+            mevents.append("RSave %s %d%%nat %s" % (coq_list([cb(x) for x in chunks]), 10 ** 4 if mode == "complete" else k,
+                                                    "true" if mode == "fault" else "false"))
+            trail.append(["save", data, mode, k, out])
+            ctx.hist("registry_history_event", mode)
+        what = dict(old=old, events=trail)
+        v = view(reg)
+        okv = v == oldv or v in links
+        if not okv and v[0] == 2:
+            try:
+                okv = json.loads(bytes(v[1:]).decode()) in versions
+            except ValueError:
+                okv = False
+        left = sorted(set(os.listdir(target)) - {"services.json", "services.json.tmp", "planted-here"})
+        if not okv or left or impl.outside_snapshot(arena) != outside0:
+            ctx.fail(sig or "oracle/registry-history-torn", "after the events %r services.json is %r (initially %r), other entries %r: neither "
+                     "the initial version nor the complete text of one of the rewrites" % (trail, bytes(v[1:]) if v[0] == 2 else v,
+                                                                                           bytes(oldv[1:]) if oldv[0] == 2 else oldv, left), replay=what)
+        if v[0] == 2 or v[0] == 0:
+            try:
+                loaded = impl.load_registry(target)
+                if v[0] == 2 and not (loaded in versions or loaded == old):
+                    raise ValueError("loads as something else: %r" % (loaded,))
+            except Exception as e:
+                ctx.fail(sig or "oracle/registry-history-unloadable", "after the events %r load_service_data fails / answers something that was "
+                         "never saved: %s" % (trail, e), replay=what)
+        exp += [v, view(planted), kind(view(tmp))]
+    last = events[-1]
+    if last[0] == "save" and last[2] == "complete":
+        if impl.load_registry(target) != last[1] or os.path.lexists(tmp):
+            ctx.fail(sig or "oracle/registry-history-no-recovery", "after the events %r the last, uninterrupted rewrite is not what "
+                     "load_service_data reads, or services.json.tmp is left behind (%s)" % (trail, os.path.lexists(tmp)), replay=dict(old=old, events=trail))
+    if collect is not None:
+        ents = [] if old is None else [(reg, ("F", bytes(oldv[1:])))]
+        es, cs = coq_ents(ents)
+        collect.append(dict(term="(%s, %s, %s, (%s, %s))" % (cb(target), coq_list(mevents), coq_list([cb(reg), cb(planted)]), es, cs),
+                            tmp=tmp, exp=exp, desc=dict(old=old, events=trail)))
+
+
+# fixed histories (their detection power does not depend on the random stream)
+UHIST_FIXED = [
+    ("ok", "old", [("upload", [b"da", b"ta"], "done", 2), ("plant", "tmp", LINK), ("upload", [b"c"], ("error", 1, "source"), None),
+                   ("upload", [b"fin", b"al"], "done", None)]),
+    ("ok", "empty", [("upload", [b"da", b"ta"], "done", 3), ("upload", [b"x", b"y", b"z"], "done", 4), ("upload", [b"fin", b"al"], "done", None)]),
+    ("ok", "stale", [("upload", [b"da"], ("error", 1, "disconnect"), 2), ("plant", "tmp", DANGLING_OUT), ("plant", "other", LINK),
+                     ("upload", [b"q"], ("badblock", 1, "str"), None), ("upload", [b"fin", b"al"], "done", None)]),
+    ("a/../b", "old+tmplink", [("upload", [b"da", b"ta"], "done", 0), ("upload", [b"da", b"ta"], "done", 1), ("plant", "final", LINK),
+                               ("upload", [b"new"], "done", 3), ("upload", [b"fin", b"al"], "done", None)]),
+    ("x.partial", "tmpdangling-out", [("upload", [b"one", b"two"], "done", 4), ("upload", [b"fin", b"al"], "done", None)]),
+    ("ok", "finallink", [("upload", [b"da", b"ta"], ("error", 2, "source"), 3), ("plant", "tmp", "ok"), ("upload", [b"fin", b"al"], "done", None)]),
+]
+
+
+def history_check(ctx, impl, jobs):
+    rng = ctx.rng
+    hist = []
+    for name, variant, events in UHIST_FIXED:
+        run_uhistory(ctx, impl, name, variant, events, hist)
+        ctx.case(["uhistory", name, variant, repr(events)], nontrivial=True)
+    names = ["ok", "a/../b", "x.partial", "\u00e9"]
+    variants = ["empty", "old", "stale", "tmplink", "old+tmplink", "tmpdangling-out", "tmpdangling-in", "finallink", "finaldangling", "tmpchain", "tmploop"]
+    for _ in range(ctx.n(30, 400)):
+        events = []
+        for _j in range(rng.randint(1, 4)):
+            if rng.random() < 0.25:
+                events.append(("plant", rng.choice(["tmp", "tmp", "final", "other"]), rng.choice([LINK, DANGLING_OUT, DANGLING_IN, "ok", "../sentinel"])))
+                continue
+            bl = [bytes(rng.randrange(97, 123) for _ in range(rng.randint(1, 4))) for _ in range(rng.randint(0, 3))]
+            j = rng.randint(0, len(bl))
+            ending = rng.choice(["done", "done", ("error", j, "source"), ("error", j, "disconnect"), ("badblock", j, rng.choice(impl.BAD_BLOCK_KINDS))])
+            crash = rng.choice([None, rng.randint(0, len(bl) + 4), rng.randint(0, len(bl) + 4)])
+            events.append(("upload", bl, ending, crash))
+        events.append(("upload", [b"fin", b"al"], "done", None))
+        name, variant = rng.choice(names), rng.choice(variants)
+        run_uhistory(ctx, impl, name, variant, events, hist)
+        ctx.case(["uhistory", name, variant, repr(events)], nontrivial=True)
+        ctx.hist("history_length", len(events))
+    ctx.sample(dict(history=[list(e) if e[0] == "plant" else ["upload", [b.decode() for b in e[1]], e[2], e[3]] for e in UHIST_FIXED[0][2]],
+                    name="ok", variant="old"))
+    jobs.append(make_job("C19_history_0", "correspondence/upload-history", "",
+                         "list uevent * list str * list str * (list (str * ent) * list (list N))", [h["term"] for h in hist],
+                         """Definition obs (c : list uevent * list str * list str * (list (str * ent) * list (list N))) : list (list N) :=
+  let '(es, watch, kinds, (ents, cont)) := c in code_uevent_views (mk_st ents cont) es watch kinds.
+""", [h["exp"] for h in hist], lambda i: "upload history %r" % (hist[i]["desc"],)))
+    # registry
+    cache, rh = {}, []
+    A, B, C = REG_OLD, REG_NEW, REG_B
+    n_ops = len(reg_chunks(impl, cache, B)) + 3
+    fixed = [
+        (A, [("save", B, "kill", 2), ("save", C, "complete", 0)]),
+        (A, [("save", B, "kill", n_ops - 1), ("plant", "other", LINK), ("save", C, "fault", 1), ("save", B, "complete", 0)]),
+        (None, [("save", B, "fault", n_ops - 1), ("save", B, "kill", n_ops - 2), ("save", A, "complete", 0)]),
+        (A, [("plant", "final", "elsewhere.json"), ("save", B, "kill", 3), ("save", B, "complete", 0)]),
+    ]
+    for old, events in fixed:
+        run_rhistory(ctx, impl, old, events, cache, rh)
+        ctx.case(["rhistory", repr(old), repr(events)], nontrivial=True)
+    for _ in range(ctx.n(12, 150)):
+        events = []
+        for _j in range(rng.randint(1, 3)):
+            data = rng.choice([A, B, C])
+            n = len(reg_chunks(impl, cache, data)) + 3
+            r = rng.random()
+            if r < 0.15:
+                events.append(("plant", rng.choice(["final", "other"]), rng.choice([LINK, "elsewhere.json"])))
+            else:
+                events.append(("save", data, rng.choice(["kill", "kill", "fault", "complete"]), rng.choice([0, 1, 2, n - 3, n - 2, n - 1, rng.randrange(n)])))
+        events.append(("save", rng.choice([A, B, C]), "complete", 0))
+        old = rng.choice([None, A, C])
+        run_rhistory(ctx, impl, old, events, cache, rh)
+        ctx.case(["rhistory", repr(old), repr(events)], nontrivial=True)
+    jobs.append(make_job("C19_reghistory_0", "correspondence/registry-history", "",
+                         "str * list revent * list str * (list (str * ent) * list (list N))", [h["term"] for h in rh],
+                         """Definition obs (c : str * list revent * list str * (list (str * ent) * list (list N))) : list (list N) :=
+  let '(base, es, watch, (ents, cont)) := c in
+  code_revent_views base (mk_st ents cont) es watch [registry_final base ++ registry_tmp_ext].
+""", [h["exp"] for h in rh], lambda i: "registry history %r" % (rh[i]["desc"],)))
+
+
+def toctou_note(ctx, impl):
+    """outside the property (concurrent LOCAL actor), recorded for the reader: C19_concurrent_symlink_refuted on the real code"""
+    try:
+        arena, target, sent = impl.fresh("toctou")
+        tmp = os.path.join(target, "x.partial")
+        fu = impl.make_uploader(target, 0o640)
+        rec = impl.Recorder(arena, nest_at=0, nest_fn=lambda: os.symlink("../sentinel/newfile", tmp))
+        out = impl.putfile(fu, "x", [b"da", b"ta"], rec)
+        rec.cleanup()
+        escaped = os.path.lexists(os.path.join(sent, "newfile"))
+        ctx.notes.append("observation, outside C19 (concurrent LOCAL actor, C19_concurrent_symlink_refuted): a symlink planted at x.partial "
+                         "between the islink() test and open() of remote_putfile is %s (upload -> %s); links planted before a call are removed"
+                         % ("followed: a file appeared in the sibling directory" if escaped else "not followed", out))
+    except Exception as e:      # a note only
+        ctx.notes.append("toctou note could not be produced: %r" % (e,))
+
+
+# ---------------------------------------------------------------------------
+# 8. symbolic links AT the names the gatherer writes / the publisher reads
+
+SYM_GATHER = [("savefile", LINK), ("savefile", DANGLING_OUT), ("savefile", DANGLING_IN), ("latest", "../sentinel/latest-victim"),
+              ("latest", LINK), ("latest", DANGLING_IN)]
+
+
+def gather_symlink_case(ctx, impl, name, where, text, collect=None, sig=None):
+    arena, target, sent = impl.fresh("gatl")
+    comp = posixpath.normpath(name)
+    q, latest = os.path.join(target, comp + ".flog.bz2"), os.path.join(target, "latest")
+    p = q if where == "savefile" else latest
+    os.symlink(text, p)
+    obs = impl.make_observer(target)
+    outside0 = impl.outside_snapshot(arena)
+    out = impl.got_incident(obs, name)
+    outside1 = impl.outside_snapshot(arena)
+    through = os.path.islink(p) and out == "ok"          # still a link: the file was opened THROUGH it
+    ctx.hist("gatherer_symlink", "%s:%s" % (where, "through" if through else "not-through"))
+    if outside1 != outside0:
+        ctx.fail(sig or "oracle/gatherer-follows-preexisting-symlink",
+                 "IncidentObserver._got_incident with incident name %r, %s already a symbolic link to %r: the gatherer wrote through "
+                 "the link, outside its directory: %s" % (name, os.path.relpath(p, arena), text, tree_diff(outside0, outside1)),
+                 replay=dict(name=name, link_at=os.path.relpath(p, arena), link_text=text, outcome=out))
+    if collect is not None:
+        collect.append(dict(term="(%s, %s, %s, %s)" % (cb(target), cb(name), cb(p), cb(text)), exp=[[1 if through else 0], kind(view(p))],
+                            desc=dict(name=name, link_at=where, text=text, outcome=out)))
+
+
+def publish_symlink_case(ctx, impl, name, ext, text, collect=None, sig=None):
+    arena, target, sent = impl.fresh("publ")
+    impl.write_incident(os.path.join(sent, "victim.flog"), "OUTSIDE-sentinel")
+    impl.write_incident(os.path.join(sent, "victim.flog.bz2"), "OUTSIDE-sentinel-bz2", compress=True)
+    impl.write_incident(os.path.join(target, "incident-in.flog"), "inside")
+    p = os.path.join(target, posixpath.normpath(name) + ext)
+    os.symlink(text, p)
+    pub = impl.make_publisher(target)
+    out, opened = impl.get_incident(pub, name, arena)
+    raw = list(impl.get_incident.raw)
+    through = any(os.path.islink(r) for r in raw)
+    ctx.hist("publisher_symlink", "through" if through else "not-through")
+    for r in raw:
+        if os.path.islink(r) and not os.path.realpath(r).startswith(os.path.realpath(target) + os.sep):
+            ctx.fail(sig or "oracle/publisher-follows-preexisting-symlink",
+                     "LogPublisher.remote_get_incident(%r) with %s a symbolic link to %r opened the link and read %r, outside the "
+                     "incident directory (answer: %s)" % (name, os.path.relpath(p, arena), text, os.path.relpath(os.path.realpath(r), arena), out),
+                     replay=dict(name=name, link_at=os.path.relpath(p, arena), link_text=text, outcome=out))
+    if collect is not None:
+        ents = [(p, ("L", text)), (os.path.join(sent, "victim.flog"), ("F", b"v")), (os.path.join(sent, "victim.flog.bz2"), ("F", b"w")),
+                (os.path.join(target, "incident-in.flog"), ("F", b"i"))]
+        es, cs = coq_ents(ents)
+        collect.append(dict(term="(%s, %s, (%s, %s))" % (cb(target), cb(name), es, cs), exp=[[1 if through else 0]],
+                            desc=dict(name=name, link_at=name + ext, text=text, outcome=out)))
+
+
+def symlink_check(ctx, impl, jobs):
+    g, pb = [], []
+    for name in ["x", "a/../b", "incident-1"]:
+        for where, text in SYM_GATHER:
+            gather_symlink_case(ctx, impl, name, where, text, collect=g)
+            ctx.case(["gatherer-symlink", name, where, text], nontrivial=True)
+    for name, ext, text in [("incident-l", ".flog", "../sentinel/victim.flog"), ("incident-l", ".flog.bz2", "../sentinel/victim.flog.bz2"),
+                            ("incident-l", ".flog", "incident-in.flog"), ("incident-l", ".flog", "../sentinel/nothing.flog"),
+                            ("incident-l", ".flog.bz2", "../sentinel/nothing.flog.bz2"), ("incident/../incident-m", ".flog", "../sentinel/victim.flog")]:
+        publish_symlink_case(ctx, impl, name, ext, text, collect=pb)
+        ctx.case(["publisher-symlink", name, ext, text], nontrivial=True)
+    pre = "Definition cwd : str := %s.\n" % cb(os.getcwd())
+    jobs.append(make_job("C19_symlinkg_0", "correspondence/gatherer-symlink", pre, "str * str * str * str", [c["term"] for c in g],
+                         """Definition obs (c : str * str * str * str) : list (list N) :=
+  let '(base, name, p, t) := c in
+  let s0 := mk_st [(p, L t)] [] in
+  match gatherer_call cwd base name [[1%N]] [1%N] with
+  | None => [[9%N]]
+  | Some ops => [[b2n (followed (run s0 ops))]; kind_of (look (run s0 ops) p)]
+  end.
+""", [c["exp"] for c in g], lambda i: "gatherer with a pre-existing link %r" % (g[i]["desc"],)))
+    jobs.append(make_job("C19_symlinkp_0", "correspondence/publisher-symlink", pre, "str * str * (list (str * ent) * list (list N))",
+                         [c["term"] for c in pb],
+                         """Definition obs (c : str * str * (list (str * ent) * list (list N))) : list (list N) :=
+  let '(base, name, (ents, cont)) := c in [[b2n (publisher_reads_through_link (mk_st ents cont) cwd base name)]].
+""", [c["exp"] for c in pb], lambda i: "publisher with a pre-existing link %r" % (pb[i]["desc"],)))
+
+
+# ---------------------------------------------------------------------------
+# 9. two OVERLAPPING uploads of the same name (remote_putfile is asynchronous: ordinary use by two clients)
+
+class HeldSrc:
+    """remote `source` whose read() answers only when the test says so"""
+
+    def __init__(self):
+        self.pending = []
+
+    def callRemote(self, name, *a):
+        from twisted.internet import defer
+        d = defer.Deferred()
+        self.pending.append(d)
+        return d
+
+    def give(self, data):
+        self.pending.pop(0).callback(data)
+
+
+def overlap_case(ctx, impl, name, a_blocks, b_blocks, variant, sig=None):
+    """A starts and delivers a_blocks; B starts, delivers b_blocks and finishes; then A finishes"""
+    from twisted.python import failure
+    arena, target, sent = impl.fresh("ovl")
+    comp = posixpath.normpath(name)
+    prepopulate(target, comp, variant)
+    final, tmp = os.path.join(target, comp), os.path.join(target, comp + ".partial")
+    fu = impl.make_uploader(target, 0o640)
+    outside0 = impl.outside_snapshot(arena)
+    allowed = [view(final), [2] + list(b"".join(a_blocks)), [2] + list(b"".join(b_blocks))]
+    A, B, ra, rb, seen = HeldSrc(), HeldSrc(), [], [], []
+    try:
+        fu.remote_putfile(name, A).addBoth(ra.append)
+        for blk in a_blocks:
+            A.give(blk)
+        seen.append(("A has sent its blocks", view(final)))
+        fu.remote_putfile(name, B).addBoth(rb.append)
+        for blk in b_blocks:
+            B.give(blk)
+        B.give(b"")
+        seen.append(("B finished", view(final)))
+        A.give(b"")
+        seen.append(("A finished", view(final)))
+    except BaseException as e:
+        seen.append(("raised %s" % type(e).__name__, view(final)))
+    res = ["fail:" + r.type.__name__ if isinstance(r, failure.Failure) else "ok" for r in (ra[:1] + rb[:1])]
+    bad = [(w, bytes(v[1:]) if v[0] == 2 else v) for w, v in seen if v not in allowed]
+    left = os.path.lexists(tmp)
+    ctx.hist("overlap_outcome", "/".join(res))
+    if bad or left or impl.outside_snapshot(arena) != outside0:
+        ctx.fail(sig or "oracle/overlapping-uploads-same-name-tear-file",
+                 "two overlapping uploads of %r (A sends %r, then B sends %r and finishes, then A finishes; initial state %s; results %r): "
+                 "the final name showed %r -- neither the old entry nor the complete content of either upload; temporary left: %s"
+                 % (name, a_blocks, b_blocks, variant, res, bad, left),
+                 replay=dict(name=name, a_blocks=[b.decode("latin1") for b in a_blocks], b_blocks=[b.decode("latin1") for b in b_blocks],
+                             variant=variant, results=res))
+
+
+def overlap_check(ctx, impl):
+    for name, a, b, variant in [("x", [b"AAAA"], [b"BBBBBBBB"], "empty"), ("x", [b"AAAA"], [b"BBBBBBBB"], "old"),
+                                ("x", [b"AAAAAAAA"], [b"BB"], "empty"), ("a/../x", [b"A1", b"A2"], [b"B1"], "old")]:
+        overlap_case(ctx, impl, name, a, b, variant)
+        ctx.case(["overlap", name, [x.hex() for x in a], [x.hex() for x in b], variant], nontrivial=True)
